@@ -33,6 +33,11 @@ THEOREMS = [
     "MCHap.C09.get_new_miss",
     "MCHap.C09.flushed_empty",
     "MCHap.C09.insertLoop_ok",
+    "MCHap.C09.Inv_new",
+    "MCHap.C09.get_eq_abs",
+    "MCHap.C09.set_refines",
+    "MCHap.C09.amap_coherent_set",
+    "MCHap.C09.amap_transparent",
     "MCHap.C09.coherent_set",
     "MCHap.C09.cachedCall_spec",
     "MCHap.C09.cache_transparent",
@@ -53,8 +58,8 @@ def run(tier, replay=None):
     from mchap.assemble import arraymap
 
     chk = C.Check(PROP, tier, MODULE, THEOREMS, RULE, assumptions=[
-        "the refinement of arraymap.set to an abstract finite map is proved for the node-allocation loop (tree part); the value-slot / "
-        "growth / flush bookkeeping is tied to the code by the history correspondence and the dict oracle, not by a theorem",
+        "arraymap.set / get are proved (on the model) to refine a finite map through every growth / flush path; the model is tied to the "
+        "jitted code by get/set histories and a dict oracle",
         "sampler-level transparency is observed on the real samplers (monitors under NUMBA_DISABLE_JIT=1, jitted trace recomputation)",
     ])
     chk.prove()
